@@ -2006,3 +2006,13 @@ DEPTH_STREAM_RULE = (" Tags depth:<family>:<layer kind>:<shape> (stypes::run_dep
                      "universal seed has no error-swallowing visitor (the model-level statement is c14_typed_depth_restored).")
 PROPS["C12"]["rule"] += DEPTH_STREAM_RULE
 PROPS["C14"]["rule"] += DEPTH_STREAM_RULE
+
+# ---- fourth round of seeded changes (branch wip-h3): generators / verdicts that were missing
+PROPS["C17"]["rule"] += (" Symmetry of == is a C17 verdict: ops mapeqh / mapeq evaluate a == b and b == a; when they differ the observation is "
+    "`?asymmetric:<a == b>:<b == a>` and the driver reports `C17 == of maps / values is not symmetric` with the reference-dictionary verdict (before, such a "
+    "case was dropped as undecodable). Tags subset-* / superset-* (c17::run_subsets, own generator state): strict subsets and supersets in BOTH orders - "
+    "{} / {a} / {a,b} and the results of remove, clear, retain on them (fixed, first); 600 (thorough 6000) maps of 1-7 keys with nested values against the "
+    "same history followed by 1-3 removals in every spelling (remove / remove_entry through the map or an occupied entry, swap_remove / shift_remove under "
+    "preserve_order, retain by key), retain-below, clear, or 1-3 extra keys (insert / extend / append), the other side optionally rebuilt in another "
+    "insertion order - as histories (mapeqh: verdict from the reference association list, equal iff same key set and equal values) and as Values at top "
+    "level and nested in [m], {k:m}, [1,{x:[null,m]}], {o:{a:1,m:m,z:true}} (mapeq: Spec.ValueEq.specEq); default and preserve_order.")
